@@ -66,6 +66,8 @@ def draw_cfg(rng, *, jac_modes=("callable",), small=True, allow_scaler=True, all
     cfg["jac"] = choice(rng, jac_modes)
     if rng.random() < 0.15:
         cfg["args"] = True
+    if rng.random() < 0.06:
+        cfg["x0_dtype"] = "float32"
     if rng.random() < 0.12:
         cfg["env_reuse_buf"] = True
     if rng.random() < 0.12:
